@@ -38,13 +38,13 @@ ASSUMPTIONS = [
 ]
 
 OUTCOMES = ["ok", "raise", "none", "nc", "wrong", "false"]
-SEQS = {"a": "ACGT", "ba": "GGCC", "c": "TTAA", "fasta1": "CAGT"}
+SEQS = {"a": "ACGT", "ba": "GGCC", "c": "TTAA", "fasta1": "CAGT", "a.v2": "CCAT"}
 
 
 def bounds(tier):
     return {
-        "quick": {"id_sets": [["a"], ["a", "ba"], ["ba", "a", "c"]], "steps": [1], "two_step_sets": [["ba", "a"]], "workers": [1, 2, 3], "stores": ["dir", "sqlite"]},
-        "thorough": {"id_sets": [["a"], ["a", "ba"], ["ba", "a", "c"], ["ba", "c", "a", "fasta1"]], "steps": [1], "two_step_sets": [["ba", "a"], ["ba", "a", "c"]], "workers": [1, 2, 3], "stores": ["dir", "sqlite"]},
+        "quick": {"id_sets": [["a"], ["a", "ba"], ["ba", "a", "c"], ["a", "a.v2"]], "steps": [1], "two_step_sets": [["ba", "a"]], "workers": [1, 2, 3], "stores": ["dir", "sqlite"]},
+        "thorough": {"id_sets": [["a"], ["a", "ba"], ["ba", "a", "c"], ["a", "a.v2"], ["ba", "c", "a", "fasta1"]], "steps": [1], "two_step_sets": [["ba", "a"], ["ba", "a", "c"]], "workers": [1, 2, 3], "stores": ["dir", "sqlite"]},
     }[tier]
 
 
@@ -305,7 +305,13 @@ def run_once(ids, vectors, store_kind, sched, base):
 def single_reference(i, base):
     """content produced by calling the app on that input alone into a fresh store"""
     r = run_once([i], [{}], "dir", None, base)
-    return r["records"].get(("completed", i))
+    ref = r["records"].get(("completed", i))
+    if ref is None and "." in i:
+        # a directory store files an identifier with an interior dot under its first component (recorded finding of C13):
+        # the content reference is then taken from the sqlite store, which keeps identifiers verbatim
+        r = run_once([i], [{}], "sqlite", None, base)
+        ref = r["records"].get(("completed", i))
+    return ref
 
 
 def judge(ids, vectors, store_kind, sched, res, refs):
@@ -313,7 +319,7 @@ def judge(ids, vectors, store_kind, sched, res, refs):
     fails = []
     mode = "serial" if sched is None else ("parallel, chunksize given" if sched[0] == "chunksize" else "parallel")
     classes = sorted({v.get(i, "ok") for v in vectors for i in ids} - {"ok"})
-    cls = f"{store_kind} store, {mode}, {len(vectors)} generic step(s)"
+    cls = f"{store_kind} store, {mode}, {len(vectors)} generic step(s)" + ("; an input name has an interior dot" if any("." in i for i in ids) else "")
     if res["raised"]:
         name, where, msg = res["raised"]
         last = [vectors[-1].get(i, "ok") for i in ids]
@@ -417,7 +423,7 @@ def explore(spec, acc):
             if len(finals) > 1 and not any_raised:
                 groups = sorted(finals.values(), key=lambda g: (g[0] is not None, str(g)))
                 acc.fail(
-                    f"final store depends on the completion order [{store_kind} store, {len(vectors)} generic step(s)]",
+                    f"final store depends on the completion order [{store_kind} store, {len(vectors)} generic step(s)" + ("; an input name has an interior dot]" if any("." in i for i in ids) else "]"),
                     {"ids": ids, "vectors": vectors, "store": store_kind, "schedule": groups[1][0], "compare_with": groups[0][0]},
                     {"distinct_final_stores": len(finals), "schedules_by_store": groups[:4]},
                 )
@@ -574,7 +580,7 @@ def replay(case):
         other = case["compare_with"]
         res2 = run_once(ids, vectors, store, tuple(other) if other is not None else None, base)
         if final_store_key(res) != final_store_key(res2):
-            fails.append((f"final store depends on the completion order [{store} store, {len(vectors)} generic step(s)]", {"a": case["schedule"], "b": other}))
+            fails.append((f"final store depends on the completion order [{store} store, {len(vectors)} generic step(s)" + ("; an input name has an interior dot]" if any("." in i for i in ids) else "]"), {"a": case["schedule"], "b": other}))
     return fails
 
 
